@@ -564,10 +564,23 @@ pub fn authurl(ws: &[&str]) -> String {
             .set_auth_uri(url)
     };
     let calls = std::cell::Cell::new(0u32);
-    let mut req = client.authorize_url(|| {
-        calls.set(calls.get() + 1);
-        CsrfToken::new(state.clone())
-    });
+    // in a third of the cases the authorization endpoint is (re)configured conditionally-present: the other public
+    // authorize_url, which reports a missing endpoint as an error value, must build the very same request
+    let maybe = ws.iter().flat_map(|w| w.bytes()).fold(0xcbf29ce484222325u64, |h, b| (h ^ b as u64).wrapping_mul(0x100000001b3)) >> 13 & 3 == 0;
+    let client_maybe = if maybe { Some(client.clone().set_auth_uri_option(Some(client.auth_uri().clone()))) } else { None };
+    let mut req = match &client_maybe {
+        Some(cm) => match cm.authorize_url(|| {
+            calls.set(calls.get() + 1);
+            CsrfToken::new(state.clone())
+        }) {
+            Ok(r) => r,
+            Err(_) => return "missing-endpoint-although-configured".to_string(),
+        },
+        None => client.authorize_url(|| {
+            calls.set(calls.get() + 1);
+            CsrfToken::new(state.clone())
+        }),
+    };
     if ws[7] != "." {
         for op in ws[7].split(';') {
             let parts: Vec<&str> = op.split(':').collect();
